@@ -11,7 +11,7 @@ checks, na = [], []
 for pid in ids:
     m = meta.get(pid)
     if m is None:
-        na.append({"property_id": pid, "reason": "within reach of contract-based verification per DESIGN.md, contracts not built yet"})
+        na.append({"property_id": pid, "reason": "within reach of contract-based verification per DESIGN.md (byte-level codecs, offload segmentation/coalescing, batch sends, list ordering, CPU pinning), but the contracts were not built in the time available: not claimed, nothing is reported"})
         continue
     if "not_applicable" in m:
         na.append({"property_id": pid, "reason": m["not_applicable"]})
